@@ -146,7 +146,7 @@ func c13GenHistory(t *rapid.T, maxOps int) c13Case {
 		case "app":
 			i := rapid.IntRange(0, len(tp)-1).Draw(t, "i")
 			ll, dl := c13GenLens(t, tp[i], false, &huge)
-			ops = append(ops, c13Op{K: k, I: i, L: h.C13Content(t, "l", ll), D: h.C13Content(t, "d", dl)})
+			ops = append(ops, c13Op{K: k, I: i, L: h.C13Content(t, "l", ll), D: h.C13Content(t, "d", dl), G: g})
 			c13Track(&tp[i], ll, dl, false)
 		case "ext":
 			i := rapid.IntRange(0, len(tp)-1).Draw(t, "i")
@@ -164,7 +164,7 @@ func c13GenHistory(t *rapid.T, maxOps int) c13Case {
 		case "rekey":
 			i := rapid.IntRange(0, len(bp)-1).Draw(t, "i")
 			ll, dl := c13GenLens(t, bp[i], true, &huge)
-			ops = append(ops, c13Op{K: k, I: i, L: h.C13Content(t, "l", ll), D: h.C13Content(t, "d", dl)})
+			ops = append(ops, c13Op{K: k, I: i, L: h.C13Content(t, "l", ll), D: h.C13Content(t, "d", dl), G: g})
 			c13Track(&bp[i], ll, dl, true)
 		case "fin":
 			i := rapid.IntRange(0, len(bp)-1).Draw(t, "i")
@@ -263,7 +263,19 @@ func c13Sel(i, n int) int {
 	return i % n
 }
 
+// c13NilIfEmpty turns an empty string into a nil slice for odd g: nil and
+// empty inputs are the same zero-length data.
+func c13NilIfEmpty(b []byte, g int) []byte {
+	if len(b) == 0 && g&1 == 1 {
+		return nil
+	}
+	return b
+}
+
 func c13Garbage(n, g int) []byte {
+	if n == 0 && g&1 == 1 {
+		return nil
+	}
 	b := make([]byte, n)
 	for i := range b {
 		b[i] = byte(g)
@@ -301,7 +313,7 @@ func (x *c13Lib) step(si int, op c13Op) {
 			return
 		}
 		i := c13Sel(op.I, len(w.lt))
-		msg := op.D.Bytes()
+		msg := c13NilIfEmpty(op.D.Bytes(), op.G)
 		w.lt[i].AppendMessage(string(op.L.Bytes()), msg)
 		if !bytes.Equal(msg, op.D.Bytes()) {
 			x.fail("Transcript.AppendMessage:modified-message", "step %d", si)
@@ -329,7 +341,7 @@ func (x *c13Lib) step(si int, op c13Op) {
 			return
 		}
 		i := c13Sel(op.I, len(w.lb))
-		wit := op.D.Bytes()
+		wit := c13NilIfEmpty(op.D.Bytes(), op.G)
 		// callers chain on the returned builder (in-tree test, sr25519)
 		w.lb[i] = w.lb[i].RekeyWithWitnessBytes(string(op.L.Bytes()), wit)
 		if w.lb[i] == nil {
